@@ -355,6 +355,9 @@ def emit(r, rng, name, policy, reg_style, flavours, leave_out=None):
             L.append("struct %s;" % key)
             M = "method<%s, int(%s)%s>" % (key, ", ".join(ptypes), polsuffix)
         L.append("using M%d = %s;" % (mi, M))
+        # (a method that has no definition and is never called would not be instantiated at all, hence
+        # not registered: name its method object once)
+        L.append("static auto& method_object_%d = M%d::fn;" % (mi, mi))
         m["M"] = "M%d" % mi
         cont_flavour = ["next<>", "own-next-member", "use_next<>", "own-next-member", "no-next"][(getattr(r, "salt", 0) + mi) % 5]
         m["no_next"] = m["api"] == "container" and cont_flavour == "no-next"
